@@ -112,6 +112,10 @@ pub fn check_c05(tier: Tier, seed: u64) -> PropReport {
     let cases = n(tier, 5000, 30_000);
     let o = drive(&e, "C05", tier, cases, seed);
     rep.push(e.name, o);
+    if tier == Tier::Thorough && fuzz_enabled() {
+        let o = fuzz_stage(&e, "C05", "farm_custody_rewards", 60_000, seed);
+        rep.push("fuzz:farm_custody_rewards", o);
+    }
     rep.floor("position close: partial", cases / 4);
     rep.floor("emergency exit with an active farm", cases / 20);
     rep.floor("histories where a reward denom is an LP denom", cases / 10);
@@ -125,6 +129,10 @@ pub fn check_c06(tier: Tier, seed: u64) -> PropReport {
     let cases = n(tier, 6000, 50_000);
     let o = drive(&e, "C06", tier, cases, seed);
     rep.push(e.name, o);
+    if tier == Tier::Thorough && fuzz_enabled() {
+        let o = fuzz_stage(&e, "C06", "farm_custody_rewards", 60_000, seed);
+        rep.push("fuzz:farm_custody_rewards", o);
+    }
     rep.floor("claim: paid > 0", cases / 2);
     rep.floor("claim: back-dated until_epoch", cases / 2);
     rep
